@@ -412,3 +412,111 @@ func encodesBit(eb []encByte, src string, idx int) bool {
 }
 
 var _ = sort.Strings
+
+// octetPreds parses the conditions a decoder path puts on single input
+// octets; unparsed=true when a condition mentions an input octet in a form
+// that is not evaluated.
+func octetPreds(conds []string) (preds map[int][]func(int64) bool, unparsed string) {
+	preds = map[int][]func(int64) bool{}
+	for _, cnd := range conds {
+		if m := reDataCond.FindStringSubmatch(cnd); m != nil {
+			k, _ := strconv.Atoi(m[2])
+			want, _ := strconv.ParseInt(m[4], 2, 64)
+			holdsEq := (m[1] == "+") == (m[3] == "==")
+			preds[k] = append(preds[k], func(v int64) bool { return (v == want) == holdsEq })
+			continue
+		}
+		if m := reDataNum.FindStringSubmatch(cnd); m != nil {
+			k, _ := strconv.Atoi(m[1])
+			c0, _ := strconv.ParseInt(m[3], 10, 64)
+			op := m[2]
+			preds[k] = append(preds[k], func(v int64) bool {
+				switch op {
+				case "==":
+					return v == c0
+				case "!=":
+					return v != c0
+				case "<":
+					return v < c0
+				case "<=":
+					return v <= c0
+				case ">":
+					return v > c0
+				case ">=":
+					return v >= c0
+				}
+				return true
+			})
+			continue
+		}
+		if strings.Contains(cnd, "data[") && !strings.Contains(cnd, "len(data)") {
+			unparsed = cnd
+		}
+	}
+	return
+}
+
+// headerByInterpretation: the frame header decoder interpreted on a symbolic
+// input - for which values of octets 0 and 1 it can succeed, and whether on
+// success the service identifier is octets 2..3 and the total length octets
+// 4..5, big endian, with six octets consumed.
+func headerByInterpretation(p *Program, uh *ssa.Function) (acc [2]finSet, outsOK bool, ok bool, why string) {
+	nS := 0
+	outsOK = true
+	for _, d := range runDecoder(p, uh) {
+		tup, isT := d.ret.(avTuple)
+		if !isT || len(tup) != 2 {
+			continue
+		}
+		if o, isO := tup[1].(avOpaque); !isO || o.desc != "nil" {
+			continue
+		}
+		if len(d.notes) > 0 {
+			return acc, false, false, "the header decoder is not followed: " + strings.Join(d.notes, "; ")
+		}
+		preds, unp := octetPreds(d.conds)
+		if unp != "" {
+			return acc, false, false, "a condition of the header decoder is not evaluated: " + unp
+		}
+		nS++
+		for i := 0; i < 2; i++ {
+			for v := 0; v < 256; v++ {
+				holds := true
+				for _, pr := range preds[i] {
+					if !pr(int64(v)) {
+						holds = false
+					}
+				}
+				if holds {
+					acc[i][v] = true
+				}
+			}
+		}
+		n, _ := tup[0].(avInt)
+		if n.lin == nil {
+			outsOK = false
+		} else if k, isK := n.lin.IsConst(); !isK || k != 6 {
+			outsOK = false
+		}
+		for pi, first := range map[int]int{1: 2, 2: 4} {
+			v, has := d.mem[fmt.Sprintf("out:a%d", pi)].(avInt)
+			if !has || len(v.bv) != 16 {
+				outsOK = false
+				continue
+			}
+			for j, b := range v.bv {
+				wantSrc, wantIdx := fmt.Sprintf("data[%d]", first+1), j
+				if j >= 8 {
+					wantSrc, wantIdx = fmt.Sprintf("data[%d]", first), j-8
+				}
+				if b.K != bsrc || b.Src != wantSrc || b.Idx != wantIdx {
+					outsOK = false
+				}
+			}
+		}
+	}
+	if nS == 0 {
+		return acc, false, false, "no successful path"
+	}
+	return acc, outsOK, true, ""
+}
